@@ -21,7 +21,7 @@
 bool index_new_chunk(zckCtx *zck, zckIndex *index, char *digest, int digest_size, char *digest_uncompressed, size_t comp_size, size_t orig_size, zckChunk *src, bool finished)
 V_REQUIRES(zck == NULL || __CPROVER_rw_ok(zck, sizeof(*zck)))
 V_REQUIRES(index == NULL || __CPROVER_rw_ok(index, sizeof(*index)))
-V_REQUIRES(index == NULL || index->last == NULL || __CPROVER_rw_ok(index->last, sizeof(zckChunk)))
+V_REQUIRES(index == NULL || ((index->first == NULL) == (index->last == NULL) && (index->last == NULL || __CPROVER_rw_ok(index->last, sizeof(zckChunk)))))
 V_REQUIRES(digest == NULL || digest_size <= 0 || __CPROVER_r_ok(digest, digest_size))
 V_REQUIRES(digest_uncompressed == NULL || digest_size <= 0 || __CPROVER_r_ok(digest_uncompressed, digest_size))
 V_REQUIRES(digest_size >= 0 && digest_size <= 64)
@@ -48,7 +48,7 @@ static zckRangeItem *range_insert_new(zckCtx *zck, zckRangeItem *prev, zckRangeI
 V_REQUIRES(zck == NULL || (__CPROVER_rw_ok(zck, sizeof(*zck)) && zck->error_state >= 0 && zck->error_state <= 2))
 V_REQUIRES(prev == NULL || __CPROVER_rw_ok(prev, sizeof(*prev)))
 V_REQUIRES(next == NULL || __CPROVER_rw_ok(next, sizeof(*next)))
-V_REQUIRES(!add_index || (__CPROVER_rw_ok(info, sizeof(*info)) && __CPROVER_r_ok(idx, sizeof(*idx)) && idx->digest_size >= 0 && idx->digest_size <= 64 && (info->index.last == NULL || __CPROVER_rw_ok(info->index.last, sizeof(zckChunk)))))
+V_REQUIRES(!add_index || (__CPROVER_rw_ok(info, sizeof(*info)) && __CPROVER_r_ok(idx, sizeof(*idx)) && idx->digest_size >= 0 && idx->digest_size <= 64 && (info->index.first == NULL) == (info->index.last == NULL) && (info->index.last == NULL || __CPROVER_rw_ok(info->index.last, sizeof(zckChunk)))))
 V_REQUIRES(!add_index || ((idx->digest == NULL || idx->digest_size == 0 || __CPROVER_r_ok(idx->digest, idx->digest_size)) && (idx->digest_uncompressed == NULL || idx->digest_size == 0 || __CPROVER_r_ok(idx->digest_uncompressed, idx->digest_size))))
 V_ASSIGNS(g_rx_n, g_rx_src, g_rx_size; zck != NULL: zck->error_state; prev != NULL: prev->next; next != NULL: next->prev; add_index != 0: info->index.digest_size, info->index.first, info->index.last, info->index.count, info->index.length; add_index != 0 && info->index.last != NULL: info->index.last->next)
 V_ENSURES(__CPROVER_return_value == NULL || (__CPROVER_is_fresh(__CPROVER_return_value, sizeof(zckRangeItem)) && __CPROVER_return_value->start == start && __CPROVER_return_value->end == end && __CPROVER_return_value->prev == prev && __CPROVER_return_value->next == next)) /*@C10.range_insert_new.node_holds_the_range_and_its_links*/
